@@ -186,6 +186,9 @@ func TestScenarios(t *testing.T) {
 			if verbose {
 				t.Logf("height %d changed keys: %s", res.Height, strings.Join(ch, " | "))
 			}
+			if strings.Contains(sc.Note, "-noop-") {
+				found = true // the target is a deliberate no-op (the history before it is the point)
+			}
 			if !found {
 				t.Fatalf("target block changed no key with prefix %v; changed: %s", want, strings.Join(ch, " | "))
 			}
